@@ -16,7 +16,10 @@ META = {
             "nothing is executed; otherwise exactly the reachable rules execute, once each, dependencies first, "
             "independent of declaration order.  The model is tied to the code on every run by the real "
             "caco3.Builder building generated workspaces (all graphs on <=3 rules, every declaration order of "
-            "small rule sets, random graphs up to 40 rules with sub-build trees), compared inside Coq.",
+            "small rule sets, random graphs up to 40 rules with sub-build trees), compared inside Coq; every "
+            "workspace is built twice on the same Builder (the second call must report the same errors and, with "
+            "AlwaysRebuild, execute the same rules in the same order: loader tables, tracer and memo are per "
+            "call).",
     "note": "Trusted: Coq kernel + vm_compute; harness/cmd/c11 + checks/c11.py comparison and error-message "
             "projection; name resolution (makeRelPath/makePath) is C12's subject and enters as resolved names; "
             "JSONx parsing, os.Lstat and the file system are modelled, not verified; only file_set and bundle "
@@ -283,6 +286,35 @@ def impl_oracle(c):
     return None
 
 
+def again_oracle(c):
+    """A second Build call with the same targets on the same Builder: nothing a Builder holds between
+    calls (loader tables, tracer, memo) may change the verdict.  Returns (key, text) or None."""
+    o = c["obs"]
+    if not o.get("again"):
+        return None
+    e1 = [(e["k"], e.get("n"), tuple(e.get("stack") or [])) for e in o.get("errs") or []]
+    e2 = [(e["k"], e.get("n"), tuple(e.get("stack") or [])) for e in o.get("errs2") or []]
+    if e1 != e2:
+        return ("impl:second-build-on-same-builder-differs:errors",
+                "the first Build call reported %s, the second call on the same Builder %s"
+                % (json.dumps(o.get("errs") or [])[:200], json.dumps(o.get("errs2") or [])[:200]))
+    if e1:
+        loaderr = any(k != "other" for k, _, _ in e1)
+        if loaderr and o.get("exec2"):
+            return ("impl:second-build-on-same-builder-differs:built-despite-error",
+                    "the second call executed %s although loading failed" % o["exec2"][:5])
+        return None
+    if c.get("always"):
+        if (o.get("exec2") or []) != (o.get("exec") or []):
+            return ("impl:second-build-on-same-builder-differs:order",
+                    "with AlwaysRebuild the first call executed %s, the second call on the same Builder %s"
+                    % (o.get("exec"), o.get("exec2")))
+    elif o.get("exec2"):
+        return ("impl:second-build-on-same-builder-differs:rebuilt",
+                "nothing changed, but the second call on the same Builder executed %s" % o["exec2"][:8])
+    return None
+
+
 def is_trivial(c):
     return not any(d["k"] != "sub" for f in c["files"] for d in f["decls"]) or not c["targets"]
 
@@ -356,6 +388,13 @@ def run(ck):
             ck.violation(key, why, {"case": c, "observed": c["obs"],
                                     "expected": "terminates; error iff unnamed/duplicate/cycle/dangling; "
                                                 "else exactly the reachable rules, once, dependencies first"})
+        bad = again_oracle(c)
+        if bad:
+            key, why = bad
+            ck.violation(key, why, {"case": c, "observed": c["obs"],
+                                    "expected": "a second Build call with the same targets on the same Builder "
+                                                "reports the same errors; with AlwaysRebuild it executes the same "
+                                                "rules in the same order, otherwise nothing"})
         if c.get("group"):
             groups.setdefault(c["group"], []).append(c)
     for g, cs in groups.items():
